@@ -161,6 +161,50 @@ func Harness_C09_GoldenGate() {
 	vAssert(err2 != nil, "unknown-enzyme-is-an-error")
 }
 
+// two (quick) / up to four (thorough) distinct rings on concrete pools: whatever the arrival order of
+// the duplicates, every ring is returned exactly once
+func Harness_C09_TwoRingsSchedules() {
+	vSchedules(vTier(2, 3))
+	k := 1 + vChoice(2)
+	na := 2
+	if vTier(0, 1) == 1 {
+		na = 2 + vChoice(2)
+	}
+	var frags []Fragment
+	var rings []string
+	interiors := []string{"AC", "GG", "TA", "CA"}
+	for a := 0; a < na; a++ {
+		frags = append(frags, Fragment{interiors[a], c09Junctions[0], c09Junctions[1%k]})
+	}
+	if k == 2 {
+		frags = append(frags, Fragment{"TT", c09Junctions[1], c09Junctions[0]})
+	}
+	for a := 0; a < na; a++ {
+		r := c09Junctions[0] + interiors[a]
+		if k == 2 {
+			r += c09Junctions[1] + "TT"
+		}
+		rings = append(rings, r)
+	}
+	if vChoice(2) == 1 {
+		for i, j := 0, len(frags)-1; i < j; i, j = i+1, j-1 {
+			frags[i], frags[j] = frags[j], frags[i]
+		}
+	}
+	vTerminates(3000000)
+	got := CircularLigate(frags)
+	vAssert(len(got) == len(rings), "one-construct-per-ring-whatever-the-schedule")
+	for _, r := range rings {
+		hit := false
+		for _, g := range got {
+			if cSameMolecule(g.Sequence, r) {
+				hit = true
+			}
+		}
+		vAssert(hit, "no-missing-ring-whatever-the-schedule")
+	}
+}
+
 // pools whose overhangs close a cycle that excludes the seed
 func Harness_C09_Termination() {
 	vSchedules(vTier(0, 1))
